@@ -185,7 +185,7 @@ def validate(records, scratch, run=None, shard=1500, module='LayoutTrace', parts
             json.dump([{'prog': r['prog'], 'nc': _strip(r['nc']), 'c': _strip(r['c'])} for r in records[k:k + shard]],
                       f, separators=(',', ':'))
         files.append((k, p))
-        jobs.append(dict(module=module, env={'RECS_FILE': p, 'DRIFT': '1' if drift is not None else '0'}, workers=1, scratch=scratch, timeout=3600, heap='3g'))
+        jobs.append(dict(module=module, env={'RECS_FILE': p, 'DRIFT': '1' if drift is not None else '0'}, workers=1, scratch=scratch, timeout=1200, heap='3g'))
     bad = {}
     for (k, p), r in zip(files, tlc.run_many(jobs)):
         n = min(shard, len(records) - k)
